@@ -289,12 +289,46 @@ def enum_field_cases():
                                     'enum-field:%s:%s' % (pos, 'kept' if sym in rsyms else 'removed'), 'unknown'))
     return out
 
+def same_short_name_cases():
+    """two named types with the same short name in different namespaces inside one schema (a verdict or a resolution
+    remembered for one must not be reused for the other), in both orders"""
+    out = []
+    def en(ns, syms, default=None):
+        d = {'type': 'enum', 'name': 'Suit', 'namespace': ns, 'symbols': syms}
+        if default:
+            d['default'] = default
+        return d
+    def fx(ns, size):
+        return {'type': 'fixed', 'name': 'Blob', 'namespace': ns, 'size': size}
+    def rec(ns, ftype):
+        return {'type': 'record', 'name': 'Part', 'namespace': ns, 'fields': [{'name': 'v', 'type': ftype}]}
+    shapes = [
+        (en('first', ['A', 'B']), en('second', ['C', 'D']), en('first', ['A', 'B']), en('second', ['C', 'X']),
+         ['(enum 0 #41)', '(enum 1 #42)'], ['(enum 0 #43)', '(enum 1 #44)']),
+        (en('first', ['A', 'B']), en('second', ['C', 'D']), en('first', ['B', 'A']), en('second', ['M', 'N']),
+         ['(enum 1 #42)'], ['(enum 1 #44)']),
+        (fx('first', 2), fx('second', 3), fx('first', 2), fx('second', 4), ['(fixed 2 #0102)'], ['(fixed 3 #010203)']),
+        (rec('first', 'int'), rec('second', 'string'), rec('first', 'long'), rec('second', 'int'),
+         ['(record (kv #76 (int 5)))'], ['(record (kv #76 (string #78)))']),
+    ]
+    for wa, wb, ra, rb, va, vb in shapes:
+        for flip in (False, True):
+            fw_, fr_ = ([('a', wa), ('b', wb)], [('a', ra), ('b', rb)]) if not flip else ([('b', wb), ('a', wa)], [('b', rb), ('a', ra)])
+            W = {'type': 'record', 'name': 'Top', 'fields': [{'name': n, 'type': t} for n, t in fw_]}
+            R = {'type': 'record', 'name': 'Top', 'fields': [{'name': n, 'type': t} for n, t in fr_]}
+            for x in va:
+                for y in vb:
+                    kv = {'a': x, 'b': y}
+                    v = '(record %s)' % ' '.join('(kv %s %s)' % (hx(n), kv[n]) for n, _ in fw_)
+                    out.append((json.dumps(W), json.dumps(R), v, 'same-short-name', 'unknown'))
+    return out
+
 def gen_triples(tier, seed):
     rng = Rng(seed)
     n = 260 if tier == 'quick' else 10000
     lines, meta = [], {}
     k = 0
-    for (wt, rt, v, name, sf) in CORPUS + enum_field_cases():
+    for (wt, rt, v, name, sf) in CORPUS + enum_field_cases() + same_short_name_cases():
         cid = 't%d' % k; k += 1
         lines.append('%s (read2 %s %s %s)' % (cid, hx(wt), hx(rt), v))
         meta[cid] = dict(W=wt, R=rt, value=v, steps=name, safety=sf)
